@@ -658,6 +658,12 @@ func TestVerifC19World(t *testing.T) {
 			}
 			recipients := func(tn string) []peer.ID {
 				tr := c19Snap(nd)
+				if router == "floodsub" {
+					// the floodsub router has no peer set; the queue table also lists peers whose stream is still being
+					// (re)opened, and what is pushed into such a queue is lost if the attempt fails: only peers with an
+					// open stream according to the trace so far are certain recipients
+					tr.peers = c19Replay(tee.Events()).peers
+				}
 				var out []peer.ID
 				for _, gp := range pups {
 					id := gp.p.ID()
